@@ -70,7 +70,7 @@ def describe(rep):
         'spec matrices are the ones the sweeper object holds (Q, QI, QE, Q1, Q2); their zero padding and agreement with a fresh qmat generator are concrete side conditions',
         'dt > 0',
     )
-    rep.out_of_scope('boris_2nd_order and Runge_Kutta_Nystrom (need the Penning-trap specific boris_solver / build_f), DAE sweepers beyond the linear index-1 problem (their implicit solve is replaced by an axiomatic one), MPI sweepers',
+    rep.out_of_scope('boris_2nd_order / Runge_Kutta_Nystrom with a magnetic field (the rotation lives in the problem class boris_solver; the harness problem has B = 0), the implicit Velocity_Verlet tableau of the Nystrom sweeper, DAE sweepers beyond the linear index-1 problem (their implicit solve is replaced by an axiomatic one), MPI sweepers',
                      'nonlinear right-hand sides', 'rounding error of the data path')
 
 
@@ -129,6 +129,11 @@ def tasks(tier, seed):
     T.append(('verlet', 2, 'LOBATTO'))
     T.append(('verlet', 3, 'LOBATTO'))
     T.append(('verlet', 3, 'RADAU-RIGHT'))
+    T.append(('rkn',))
+    T.append(('boris', 2, 'LOBATTO'))
+    T.append(('boris', 3, 'LOBATTO'))
+    T.append(('boris', 3, 'RADAU-RIGHT'))
+    T.append(('boris', 2, 'GAUSS'))
     if not quick:
         T.append(('verlet', 4, 'LOBATTO'))
         T.append(('verlet', 3, 'GAUSS'))
@@ -153,10 +158,14 @@ def run_task(rep, task):
         from harness.c02_rk import rk_case
 
         rk_case(rep, task[1])
-    elif task[0] == 'verlet':
+    elif task[0] == 'rkn':
+        from harness.c02_rk import rkn_case
+
+        rkn_case(rep)
+    elif task[0] in ('verlet', 'boris'):
         from harness.c02_rk import verlet_case
 
-        verlet_case(rep, task[1], task[2])
+        verlet_case(rep, task[1], task[2], kind=task[0])
     elif task[0] == 'diag':
         from harness.c02_rk import diag_case
 
@@ -474,9 +483,16 @@ def replay(path):
         print('REPRODUCED' if dev > 1e-9 else 'not reproduced')
         return 1 if dev > 1e-9 else 0
     if t[0] != 'sdc':
-        print(r)
-        print('REPRODUCED')
-        return 1
+        # re-execute the whole case (symbolic run, solver, float replay) and report whether it still ends in a violation
+        from symx.report import Report
+
+        rep = Report(PID)
+        run_task(rep, tuple(tuple(x) if isinstance(x, list) else x for x in t))
+        bad = [v for v in rep.violations]
+        for v in bad[:4]:
+            print('violation:', str(v)[:300])
+        print('REPRODUCED' if bad else 'not reproduced')
+        return 1 if bad else 0
     fr = float_run(t[1], t[2], t[3], t[4], tuple(t[5]), t[6], t[7], t[8], t[9], r['env'])
     pairs = {'update_nodes': ('Unew', 'spec_U'), 'integrate': ('integ', 'spec_int'), 'end_point': ('uend', 'spec_end')}[r['clause']]
     a, b = np.asarray(fr[pairs[0]]).ravel(), np.asarray(fr[pairs[1]]).ravel()
